@@ -19,6 +19,7 @@ import (
 	"net"
 	"net/http"
 	"net/http/httptest"
+	"net/http/httputil"
 	"net/url"
 	"os"
 	"runtime"
@@ -515,8 +516,10 @@ func cvxNewWorld() *cvxWorld {
 	cvxInitBodies()
 	w := &cvxWorld{seen: map[int64]*cvxSeen{}, fronts: map[cvxCfgKey]*cvxFront{}}
 	w.oldLog = log.Writer()
-	if os.Getenv("VERIF_LOG") == "" {
+	if p := os.Getenv("VERIF_LOG"); p == "" {
 		log.SetOutput(io.Discard)
+	} else if f, err := os.OpenFile(p, os.O_CREATE|os.O_WRONLY|os.O_APPEND, 0o644); err == nil {
+		log.SetOutput(f) // debugging aid: fabio's and net/http's log lines
 	}
 	w.upstream = httptest.NewUnstartedServer(http.HandlerFunc(w.serveUpstream))
 	if os.Getenv("VERIF_LOG") == "" {
@@ -685,7 +688,14 @@ func (w *cvxWorld) front(k cvxCfgKey) *cvxFront {
 			return route.GetTable().Lookup(r, r.Header.Get("trace"), pick, match, gc, false)
 		},
 	}
-	srv := httptest.NewUnstartedServer(p)
+	var hh http.Handler = p
+	if os.Getenv("VERIF_VANILLA") != "" {
+		u, _ := url.Parse("http://" + w.upAddr)
+		rp := httputil.NewSingleHostReverseProxy(u)
+		rp.Transport = w.upTr
+		hh = rp
+	}
+	srv := httptest.NewUnstartedServer(hh)
 	if os.Getenv("VERIF_LOG") == "" {
 		srv.Config.ErrorLog = log.New(io.Discard, "", 0)
 	}
